@@ -65,7 +65,7 @@ def shards(tier, seed):
     for s in shard_seeds(seed, 2, "C15m"):
         out.append({"kind": "compile_macro", "seed": s, "n": 3 if q else 40})
     for s in shard_seeds(seed, 4, "C15d"):
-        out.append({"kind": "documents", "seed": s, "n": 5 if q else 80})
+        out.append({"kind": "documents", "seed": s, "n": 8 if q else 80})
     for s in shard_seeds(seed, 2, "C15i"):
         out.append({"kind": "invalid", "seed": s, "n": 3 if q else 40})
     return out
@@ -200,6 +200,24 @@ def compile_case(acc, root, main_rel, lookup_rel, prog_for_ref, macros_for_ref, 
             acc.count("source_map_files_checked")
         except Exception as e:
             acc.violation("source-map-file-unreadable", {"error": str(e)[:100]}, inp)
+    # the decompile command reads its input as UTF-8 wherever it runs: what the compile command prints must not depend on the
+    # encoding of the terminal / pipe it prints to (Windows code pages, the C locale)
+    nonascii = any(ord(ch) > 127 for ch in text)
+    if nonascii or rnd.random() < 0.15:
+        enc = rnd.choice(["cp1252", "ascii", "latin-1"])
+        env = {k: v for k, v in os.environ.items() if not k.startswith("LC_") and k not in ("LANG", "LANGUAGE")}
+        env.update(PYTHONPATH=REPO, PYTHONHASHSEED="0", PYTHONWARNINGS="ignore", PYTHONIOENCODING=enc, LC_ALL="C", PYTHONUTF8="0",
+                   PYTHONCOERCECLOCALE="0")
+        sm_args = [a for a in args if a not in ("--source-map", smp)]
+        p2 = subprocess.run([PY, "-m", "explorerscript.cli.compile"] + sm_args, cwd=root, env=env, capture_output=True, timeout=120)
+        acc.count("compile_cli_runs")
+        acc.count("compile_cli_runs_with_another_output_encoding")
+        if nonascii:
+            acc.count("compile_cli_runs_with_another_output_encoding_on_non_ascii_sources")
+        if p2.returncode != 0 or p2.stdout.strip() != p.stdout.strip().encode("utf-8"):
+            acc.violation(gsig("compile-cli-output-depends-on-the-output-encoding", enc, "status" if p2.returncode else "bytes"),
+                          {"encoding": enc, "status": p2.returncode, "stderr": p2.stderr[-300:].decode("ascii", "replace")}, inp)
+            return
     # feed the output to the decompile CLI
     with open(os.path.join(root, "ssb.json"), "w") as f:
         f.write(p.stdout)
@@ -424,10 +442,10 @@ def run_shard(shard, acc):
                         break
                 else:
                     continue
-                if i % 3 == 0 and not any(r["kind"] == "COROUTINE" for r in spec["routines"]):
+                if i % 4 == 0 and not any(r["kind"] == "COROUTINE" for r in spec["routines"]):
                     for k, r in enumerate(spec["routines"]):
                         r["kind"], r["name"], r["target"] = "COROUTINE", f"CORO_{k}", None
-                elif i % 3 == 1:
+                elif i % 4 == 1:
                     # coroutines between routines of the other types (the compiler accepts `def` and `coro` in one file)
                     for k, r in enumerate(spec["routines"]):
                         if rnd.random() < 0.5:
@@ -436,6 +454,15 @@ def run_shard(shard, acc):
                             r["kind"], r["name"], r["target"] = "GENERIC", None, None
                     if len({r["kind"] == "COROUTINE" for r in spec["routines"]}) == 2:
                         acc.count("documents_mixing_coroutines_and_routines")
+                elif i % 4 == 3:
+                    # routines for actors / objects / performers given by name and by number in one document (the docs' example
+                    # has ACTOR "TEST" in front of ACTOR 2)
+                    kinds = ["ACTOR", "OBJECT", "PERFORMER"]
+                    for k, r in enumerate(spec["routines"]):
+                        r["kind"], r["name"] = (kinds[(k // 2 + i) % 3] if rnd.random() < 0.8 else rnd.choice(kinds)), None
+                        r["target"] = rnd.choice(["ACTOR_NPC", "OBJ_X", "TEST"]) if k % 2 == 0 else rnd.randint(0, 400)
+                    if len(spec["routines"]) > 1:
+                        acc.count("documents_with_named_and_numbered_targets")
                 doc = doc_from_spec(spec, rnd)
                 root = os.path.join(base, f"d{i}")
                 os.makedirs(root)
@@ -462,10 +489,16 @@ def run_shard(shard, acc):
                     api_text = None
                 if api_text is not None and api_text.strip() != d.stdout.strip():
                     try:
-                        a, b = norm.positional(norm.compile_exps(api_text).routine_ops), norm.positional(norm.compile_exps(d.stdout).routine_ops)
+                        ca, cb = norm.compile_exps(api_text), norm.compile_exps(d.stdout)
+                        a, b = norm.positional(ca.routine_ops), norm.positional(cb.routine_ops)
+                        ia, ib = norm.infos(ca.routine_infos, ca.named_coroutines), norm.infos(cb.routine_infos, cb.named_coroutines)
                     except Exception:
-                        a = b = None
+                        a = b = ia = ib = None
                         acc.count("document_output_does_not_compile(C02)")
+                    if ia != ib:
+                        acc.violation(gsig("decompile-cli-reads-the-document-differently", "routine-headers"),
+                                      {"api_reading": repr(ia)[:300], "cli_output": repr(ib)[:300]}, inp)
+                        continue
                     if a != b:
                         diff = next(((x, y) for ra, rb in zip(a, b) for x, y in zip(ra, rb) if x != y), None)
                         acc.violation(gsig("decompile-cli-reads-the-document-differently", diff[0][0] if diff else "shape"),
